@@ -70,9 +70,9 @@ Ltac rinv HV U Hrd Hap Hsn Hck Hpw Hps Hq Hrc :=
 Lemma not_running_rc : forall s, running s = false -> rc s <> RcRunning.
 Proof. intros s H. unfold running in H. destruct (rc s); congruence. Qed.
 
-Lemma step_rc_chosen : forall c s s' i, Inv c s -> step c s (EvRcChosen i) = Ok s' -> Inv c s'.
+Lemma step_rc_chosen : forall c s s' i, fixed c -> Inv c s -> step c s (EvRcChosen i) = Ok s' -> Inv c s'.
 Proof.
-  intros c s s' i [hi [HP HV]] H. unfold step in H.
+  intros c s s' i [_ Hfx] [hi [HP HV]] H. unfold step in H. rewrite Hfx in H.
   destruct (rc s) eqn:R; try discriminate.
   unfold running in HV. rewrite R in HV. cbv iota in HV. unfold RInv in HV. rewrite R in HV. rinv HV U Hrd Hap Hsn Hck Hpw Hps Hq Hrc. destruct Hrc as [Hlat Heng].
   rewrite (pinv_choose _ _ HP U) in H.
@@ -92,9 +92,9 @@ Proof.
     + intros l Hl. rewrite Heng in Hl. discriminate.
 Qed.
 
-Lemma step_rc_none : forall c s s', Inv c s -> step c s EvRcNone = Ok s' -> Inv c s'.
+Lemma step_rc_none : forall c s s', fixed c -> Inv c s -> step c s EvRcNone = Ok s' -> Inv c s'.
 Proof.
-  intros c s s' [hi [HP HV]] H. unfold step in H.
+  intros c s s' [_ Hfx] [hi [HP HV]] H. unfold step in H. rewrite Hfx in H.
   destruct (rc s) eqn:R; try discriminate.
   unfold running in HV. rewrite R in HV. cbv iota in HV. unfold RInv in HV. rewrite R in HV. rinv HV U Hrd Hap Hsn Hck Hpw Hps Hq Hrc. destruct Hrc as [Hlat Heng].
   rewrite (pinv_choose _ _ HP U) in H.
